@@ -33,6 +33,8 @@ def gen_program(rng, tier):
     if prod1(es) > imax(t):
         return None
     pat = rand_pattern(rng, es, 0.5)
+    if rng.random() < 0.25:
+        pat = tuple(es)           # all-static extents: the product of the extents is a compile-time constant, the required span of a padded / strided mapping is not it
     if lay == 2:
         sts = mapgen.stride_tuples(rng, t, es, 4)
         if not sts:
